@@ -23,9 +23,12 @@ def run(prop, tier, mfuncs, assumptions, encoded, bounds, outside):
     cov = {
         "evaluations": merged["evaluations"],
         "distinct_nontrivial": merged["distinct_nontrivial"],
-        "rule": ("one evaluation = one SMT query (z3; cvc5 cross-check in the thorough tier) over "
-                 "formulas extracted by symbolic execution of MIR regions of the current tree; "
-                 "non-trivial = decided (unsat) with the region fully parsed"),
+        "rule": ("one evaluation = one obligation over a MIR region of the current tree that was "
+                 "executed symbolically (all paths of the acyclic region): either an SMT query "
+                 "(z3; cvc5 cross-check in the thorough tier) over the extracted path conditions "
+                 "and events, or - where the obligation is a pure data-flow fact such as 'the "
+                 "stored cell is the trailed cell' - a predicate evaluated on every enumerated "
+                 "path; non-trivial = decided as holding with the region fully parsed"),
         "samples": merged["samples"][:40] or [{"note": "no query could be formed"}],
         "exhaustive": False,
         "engine": "mirsmt (rustc nightly MIR dump -> path conditions -> SMT-LIB2 -> z3%s)" % (
